@@ -23,9 +23,11 @@
 //	reg                        RegisterReloadCallback(one more listener)
 //	reload t|p|x               t: Config.Reload() (timer path), p: SubscriptionListener(valid message),
 //	                           x: SubscriptionListener(unparseable message)
-//	stress <G> <R> <mode>      R rounds; every round replaces the config file and releases G goroutines
-//	                           that call Reload at once (mode 0), or lets a writer replace the file
-//	                           while they run and ends with one late trigger (mode 1)
+//	stress <G> <R> <mode>      R rounds; mode 0: every round replaces the config file once and lets G
+//	                           goroutines call Reload; the harness holds f.mux until all G have read and
+//	                           built that same content and are parked before the critical section, then
+//	                           releases them together (same-snapshot overlap).  mode 1: a writer replaces
+//	                           the file while G triggers run, then one late trigger (stale-snapshot overlap)
 //
 // obs of start/reload/reg:
 //
@@ -42,6 +44,7 @@ import (
 	"fmt"
 	"os"
 	"path/filepath"
+	"runtime"
 	"strconv"
 	"strings"
 	"sync"
@@ -474,7 +477,18 @@ func (r *runner) stress(g, rounds, mode int) string {
 		}
 		b, _ := cfgBytes(toks[0], r.dep)
 		r.write(r.cpath, b, true, toks[0])
-		close(startc)
+		if mode == 0 {
+			// every trigger reads and builds the same new content; hold f.mux so that they all
+			// arrive at Reload's critical section before any of them enters it, then let go
+			release, ok := config.VerifReloadHold(r.cfg)
+			close(startc)
+			if ok {
+				waitBlockedInReload(g, 3*time.Second)
+			}
+			release()
+		} else {
+			close(startc)
+		}
 		if mode == 1 {
 			for _, t := range toks[1:] {
 				time.Sleep(time.Duration(200+100*(r.nonce%5)) * time.Microsecond)
@@ -539,7 +553,31 @@ func (r *runner) stress(g, rounds, mode int) string {
 	}
 	// the schedule is the implementation's choice: hand the state it ended in to the model
 	kit.Ext("final %s %s %s %s = ok", last, r.tok(rh), ns, disk)
-	return fmt.Sprintf("rounds=%d listeners=%d su=%s applied=%d dbl=%d miss=%d lost=%d rej=%d", rounds, len(r.counts), su, applied, dbl, miss, lost, rej)
+	return fmt.Sprintf("mode=%d rounds=%d listeners=%d su=%s applied=%d dbl=%d miss=%d lost=%d rej=%d", mode, rounds, len(r.counts), su, applied, dbl, miss, lost, rej)
+}
+
+// waitBlockedInReload returns once n goroutines are parked on a lock inside fileConfig.Reload
+// (or the timeout passed): all of them have finished reading and building.
+func waitBlockedInReload(n int, timeout time.Duration) {
+	deadline := time.Now().Add(timeout)
+	buf := make([]byte, 1<<20)
+	for time.Now().Before(deadline) {
+		m := runtime.Stack(buf, true)
+		if m == len(buf) {
+			buf = make([]byte, 2*len(buf))
+			continue
+		}
+		blocked := 0
+		for _, g := range strings.Split(string(buf[:m]), "\n\n") {
+			if strings.Contains(g, "(*fileConfig).Reload") && strings.Contains(g, "sync.runtime_Semacquire") {
+				blocked++
+			}
+		}
+		if blocked >= n {
+			return
+		}
+		time.Sleep(time.Millisecond)
+	}
 }
 
 func main() { kit.Main(comp{}, nil) }
